@@ -35,6 +35,7 @@ import (
 	"verifharness/internal/fsmx"
 	"verifharness/internal/gen"
 	"verifharness/internal/model"
+	"verifharness/internal/racelog"
 )
 
 var (
@@ -89,6 +90,33 @@ func main() {
 		runInterrupt(r, caseID{Kind: "interrupt", Seed: r.Seed*2_000_003 + int64(i)})
 	}
 	runOverlapRange(r, 0, r.Pick(120, 2400))
+	if rep := racelog.Scan(); rep != nil {
+		// reads overlapping an install are exactly what this property is about: a race report with
+		// regatta frames is deciding here
+		for sig, n := range rep.Regatta {
+			rest := strings.ReplaceAll(strings.TrimPrefix(sig, "race:"), "|", " ")
+			onlyPull := true
+			for _, fn := range strings.Fields(rest) {
+				if !strings.HasPrefix(fn, "util/iter.Pull") {
+					onlyPull = false
+				}
+			}
+			switch {
+			case onlyPull:
+				// both sides are the two halves of regatta's hand-rolled coroutine (util/iter.Pull): they
+				// hand control to each other through runtime.coroswitch, which the race detector does
+				// not know as synchronisation; they never run concurrently. Counted, not judged.
+				r.Count("race_reports_inside_iter.Pull_coroutine_handoff(not judged)", int64(n))
+			case strings.Contains(sig, "RecoverFromSnapshot"):
+				// the install closing / removing the previous DB under a reader that still uses it:
+				// the same root cause as the read-on-closed-db findings, seen by the race detector
+				r.Violation("race:install-closes-previous-db-under-reader@read-overlapping-install", fmt.Sprintf("data race report (x%d) between RecoverFromSnapshot and a reader of the previous DB [%s]: %s", n, sig, rep.Samples[sig]), nil)
+			default:
+				r.Violation(sig+"@read-overlapping-install", fmt.Sprintf("data race report with regatta frames (x%d) in the overlap children: %s", n, rep.Samples[sig]), nil)
+			}
+		}
+		r.Extra("race_reports_third_party_only", rep.ThirdParty)
+	}
 	r.FloorNontrivial(int64(r.Pick(150, 3000)))
 	r.FloorCount("transfers", int64(r.Pick(150, 4000)))
 	r.FloorDistinct("transfer_format_pairs", 4)
@@ -518,7 +546,8 @@ func runChildSpan(r *ev.Run, self, scratch string, wk, from, to int) int {
 	fe, _ := os.Create(errf)
 	cmd := exec.Command("timeout", "-s", "QUIT", "60", self, "--child", "overlap", "--from", fmt.Sprint(from), "--to", fmt.Sprint(to), "--seed", fmt.Sprint(r.Seed), "--tier", r.Tier)
 	cmd.Stdout, cmd.Stderr = fo, fe
-	cmd.Env = append(os.Environ(), "GOTRACEBACK=all")
+	// race-built children write their reports to $SCRATCH/race.* and do not turn them into exit code 66
+	cmd.Env = append(os.Environ(), "GOTRACEBACK=all", "GORACE=halt_on_error=0 exitcode=0 log_path="+filepath.Join(scratch, "race"))
 	err := cmd.Run()
 	fo.Close()
 	fe.Close()
@@ -585,7 +614,9 @@ func runChildSpan(r *ev.Run, self, scratch string, wk, from, to int) int {
 		class = "fatal:coroswitch-on-exited-coro"
 	case strings.Contains(es, "iter.Pull: next called again before yield"):
 		class = "panic:iter.Pull-next-called-again"
-	case strings.Contains(es, "pebble: closed"),
+	case strings.Contains(es, "pebble: closed"), strings.Contains(es, "panic: pebble: "),
+		// use-after-free of pebble's manually managed memtable arena / block cache after Close
+		(strings.Contains(es, "fatal error: fault") || strings.Contains(es, "unexpected fault address")) && strings.Contains(headOf(es, 6000), "cockroachdb/pebble"),
 		strings.Contains(es, "nil pointer dereference") && strings.Contains(es, "cockroachdb/pebble") && strings.Contains(es, "jamf/regatta/storage/table/fsm"):
 		// the read went on using the previous DB after the install had closed it
 		class = "panic:read-on-closed-db"
@@ -878,4 +909,11 @@ func runSchedule(seed int64, s schedule) (string, string, string) {
 		outcome = "clean-error"
 	}
 	return "", "", outcome
+}
+
+func headOf(s string, n int) string {
+	if len(s) > n {
+		return s[:n]
+	}
+	return s
 }
